@@ -522,7 +522,14 @@ fn run_rustfmt(
 
     Ok(status
         .iter()
-        .filter_map(|s| if s.success() { None } else { s.code() })
+        // A child killed by a signal has no exit code; it still failed.
+        .filter_map(|s| {
+            if s.success() {
+                None
+            } else {
+                Some(s.code().unwrap_or(FAILURE))
+            }
+        })
         .next()
         .unwrap_or(SUCCESS))
 }
